@@ -224,7 +224,7 @@ import "github.com/google/gopacket"
 // 1..n and the pad length n, n = 15 - len(payload) mod 16.
 
 //@ func (*AES128CBC).SerializeTo
-//@ props C03 C06 C05
+//@ props C03 C06 C05 C08
 //@ requires [aes.cipher] !isnil(a.cipher)
 //@ requires [buf] bufSmall(b)
 //@ invariant 0 [aes.padfill] 0 <= i && i <= padLength && forall(qk, 0, i, trailer[qk] == uint8(qk+1))
@@ -256,7 +256,7 @@ import "github.com/google/gopacket"
 //@ ensures [C03.exec-digest] !isnil(h) ==> hIsDigest(result, old(hAbsorb(hState(h), b))) && len(result) == hSizeOf(h) && hState(h) == hInit(h)
 
 //@ func (*V2Session).SerializeTo
-//@ props C03 C06 C05
+//@ props C03 C06 C05 C08
 //@ split s.PayloadType == PayloadTypeOEM
 //@ split s.Authenticated
 //@ requires [buf] bufSmall(b) && len(s.Signature) <= 64
